@@ -28,11 +28,11 @@ def step_numbers(M, desc, vals, pars, engine_kind, symvals):
     built = D.build(M, desc)
     kw = drive.step_pars(pars)
     if engine_kind == "numpy":
-        built.net.step(init_conditions=drive.np_init(built, vals, "vec1", int_dtype=INT["on"]), engine=NE(), **kw)
+        built.net.step(init_conditions=drive.np_init(built, vals, "vec1", int_dtype=INT["on"]), engine=NE(), **OPTS, **kw)
         return drive.read_next(built)
     symvals.clear()
     ic, syms = drive.sym_init(M, built, engine_kind, symvals, vals)
-    built.net.step(init_conditions=ic, engine=CE(engine_kind), **kw)
+    built.net.step(init_conditions=ic, engine=CE(engine_kind), **OPTS, **kw)
     lay = D.var_layout(desc)
     exprs, index = [], []
     for eid, L in lay.items():
@@ -46,6 +46,7 @@ def step_numbers(M, desc, vals, pars, engine_kind, symvals):
     return out
 
 
+OPTS = {}  # positivity options of the current pair of runs (the same on both sides)
 INT = {"on": False}  # whole-number states are handed to the NumPy engine as integer arrays
 
 
@@ -123,6 +124,34 @@ def _relations_one(M, rec, rng, desc, vals, pars, ek, symvals):
             rec.sample({"relation": "R1 infinite limit vs plain link", "engine": ek, "desc": desc, "vals": vinf, "pars": pars})
         rec.seen("relations", ("R1-infinite-limit", ek))
         cmp_all(rec, "R1 infinite limit vs plain link", ek, desc, a, base, vinf, pars)
+        # R1c: the same with positivity options requested and some negative speeds/densities supplied: the
+        #      options are part of how a link evolves, a speed-limited link must honour them like a plain one
+        names = ("positive_init_speed", "positive_init_density", "positive_init_queue",
+                 "positive_next_speed", "positive_next_density", "positive_next_queue")
+        chosen = [o for o in names if rng.random() < 0.4]
+        if not set(chosen) & set(names[:2]):
+            chosen.append(rng.choice(names[:2]))
+        vneg = copy.deepcopy(vinf)
+        for l in desc["links"]:
+            for nm, need in (("rho", "positive_init_density"), ("v", "positive_init_speed")):
+                if need not in chosen:
+                    continue  # an unclamped negative density is outside the model (non-integer power)
+                for i_ in range(l["N"]):
+                    if rng.random() < 0.4:
+                        vneg[l["id"]][nm][i_] = -abs(vneg[l["id"]][nm][i_]) * rng.choice((1.0, 0.5, 0.1)) - rng.choice((0.0, 1.0))
+        vnegp = {k: {n: v for n, v in d.items() if not (n == "v_ctrl" and k in {l["id"] for l in vsl_links})} for k, d in vneg.items()}
+        OPTS.clear()
+        OPTS.update({o: True for o in chosen})
+        try:
+            a2 = step_numbers(M, desc, vneg, pars, ek, symvals)
+            base2 = step_numbers(M, plain, vnegp, pars, ek, symvals)
+        finally:
+            OPTS.clear()
+        rec.count("relation_R1_inf_with_options")
+        rec.seen("relations", ("R1-infinite-limit-with-positivity-options", ek))
+        rec.seen("option_sets", tuple(sorted(chosen)))
+        cmp_all(rec, "R1 infinite limit vs plain link, positivity options requested and negative entries supplied", ek, desc, a2, base2,
+                dict(vneg, options=sorted(chosen)), pars)
         # R1b: no limited segment
         d0 = copy.deepcopy(desc)
         v0 = copy.deepcopy(vals)
